@@ -888,6 +888,7 @@ Section BookInv.
     | OEstablished peer a false _ => P peer (with_peer peer a)
     | OInsert peer a _ _ => P peer (with_peer peer a)
     | ODialAddr a _ _ => dial_wf a
+    | ODialAddrRefused a _ => dial_wf a
     | _ => True
     end.
 
@@ -930,7 +931,7 @@ Section BookInv.
     intros [Hl Hb] Hwf.
     destruct o as [peer addrs order victims | a f victim | peer a listener victim
                   | peer limit obs | a | a | n | peer outcome errs tcp ws qu
-                  | peer a sc victim | a res victims | a | a]; cbn [step].
+                  | peer a sc victim | a res victims | a | a | a victims]; cbn [step].
     - destruct (same_set order (accepted c (lst st) peer addrs)) eqn:Hss; [|split; assumption].
       pose proof (insert_all_inv peer (get_or_empty peer (bk st)) order victims
                     (binv_get_or_empty (bk st) peer Hb)) as H.
@@ -996,6 +997,13 @@ Section BookInv.
       cbn [fst set_bk lst bk] in *. split; [exact Hl|]. apply binv_put; assumption.
     - destruct (public_add c (pubs st) a) as [ps r]. cbn [fst lst bk]. split; assumption.
     - cbn [fst lst bk]. split; assumption.
+    - cbn [op_wf] in Hwf.
+      destruct (dial_addr_check c st a) as [| | | |t q] eqn:Hd; try (split; assumption).
+      pose proof (P_dial st a t q Hl Hwf Hd) as Pa.
+      pose proof (insert_inv (P q) k (get_or_empty q (bk st)) a 0 (hd_error victims)
+                    (binv_get_or_empty (bk st) q Hb) Pa) as H1.
+      destruct (insert k (get_or_empty q (bk st)) a 0 (hd_error victims)) as [s1 r1].
+      cbn [fst set_bk lst bk] in *. split; [exact Hl|]. apply binv_put; assumption.
   Qed.
 
   Lemma run_inv h st : StInv st -> Forall op_wf h -> StInv (fst (run c k st h)).
@@ -1013,7 +1021,7 @@ End BookInv.
 
 (* bound and key uniqueness need no assumption on the environment *)
 Lemma op_wf_true o : op_wf (fun _ _ => True) (fun _ => True) o.
-Proof. destruct o as [| | ? ? [|] ?| | | | | | | | |]; cbn; auto. Qed.
+Proof. destruct o as [| | ? ? [|] ?| | | | | | | | | |]; cbn; auto. Qed.
 
 Lemma final_bound c k h p s :
   get p (bk (final c k h)) = Some s -> (length s <= cap k)%nat /\ NoDup (keys s).
@@ -1805,7 +1813,7 @@ Proof.
   intros Hk Hb Hw.
   destruct o as [peer addrs order victims | a f victim | peer a listener victim
                 | peer limit obs | a | a | n | peer outcome errs tcp ws qu
-                | peer a sc victim | a res victims | a | a]; cbn [step].
+                | peer a sc victim | a res victims | a | a | a victims]; cbn [step].
   - destruct (same_set order (accepted c (lst st) peer addrs)); [|exact Hb].
     pose proof (insert_all_ranged k (get_or_empty peer (bk st)) order victims (rinv_get_or_empty _ peer Hb)) as H.
     destruct (insert_all k (get_or_empty peer (bk st)) order victims) as [s' bad].
@@ -1848,6 +1856,11 @@ Proof.
     cbn [fst set_bk bk] in *. apply rinv_put; assumption.
   - destruct (public_add c (pubs st) a). exact Hb.
   - exact Hb.
+  - destruct (dial_addr_check c st a) as [| | | |t q]; try exact Hb.
+    pose proof (insert_ranged k (get_or_empty q (bk st)) a 0 (hd_error victims)
+                  (rinv_get_or_empty _ q Hb) zero_i32) as H1.
+    destruct (insert k (get_or_empty q (bk st)) a 0 (hd_error victims)) as [s1 r1].
+    cbn [fst set_bk bk] in *. apply rinv_put; assumption.
 Qed.
 
 Lemma run_ranged c k h st : kwf k -> RInv (bk st) -> Forall op_i32 h -> RInv (bk (fst (run c k st h))).
@@ -1934,7 +1947,7 @@ Proof.
   assert (Hsame : forall st', pubs st' = pubs st -> PInv c st') by (intros st' E; unfold PInv; rewrite E; split; assumption).
   destruct o as [peer addrs order victims | a f victim | peer a listener victim
                 | peer limit obs | a | a | n | peer outcome errs tcp ws qu
-                | peer a sc victim | a res victims | a | a]; cbn [step].
+                | peer a sc victim | a res victims | a | a | a victims]; cbn [step].
   - destruct (same_set _ _); [|apply Hsame; reflexivity].
     destruct (insert_all _ _ _ _). apply Hsame. reflexivity.
   - destruct (last a (Other 0)); try (apply Hsame; reflexivity).
@@ -1964,6 +1977,8 @@ Proof.
   - cbn [fst pubs]. split; [|apply remove_addr_nodup; exact Hn].
     apply Forall_forall. intros x Hx. rewrite Forall_forall in Hf. apply Hf.
     exact (remove_addr_in _ _ _ Hx).
+  - destruct (dial_addr_check c st a); try (apply Hsame; reflexivity).
+    destruct (insert _ _ _ _ _) as [s1 r1]. apply Hsame. reflexivity.
 Qed.
 
 Lemma run_pubs c k h st : PInv c st -> PInv c (fst (run c k st h)).
@@ -2063,4 +2078,49 @@ Proof.
     { unfold s1. rewrite app_length. cbn [length]. lia. }
     destruct (IH s1 vs Hnd1 Hl1 Hb1) as [H1 H2].
     destruct (insert_all k s1 t vs) as [s2 bad]. cbn [fst snd] in *. split; assumption.
+Qed.
+
+(* dial_address when the transport's dial() returns an error (the dial is not started): a stored
+   address keeps its score; a new one, while there is room, is remembered as untested (score 0, or
+   the public bonus) - it passed dial_address's check (C10_dial_address_filter) *)
+Lemma step_dial_addr_refused c k st a vs t q :
+  dial_addr_check c st a = DAOk t q ->
+  let s := get_or_empty q (bk st) in
+  let st' := fst (step c k st (ODialAddrRefused a vs)) in
+  (forall z0, find a s = Some z0 -> get q (bk st') = Some s) /\
+  (find a s = None -> (length s < cap k)%nat ->
+     get q (bk st') = Some (s ++ [(a, new_score k a 0)])) /\
+  (forall p, p <> q -> get p (bk st') = get p (bk st)) /\
+  lst st' = lst st /\ held st' = held st /\ pubs st' = pubs st.
+Proof.
+  intros Hd s st'. unfold st'. cbn [step]. rewrite Hd. fold s.
+  repeat split.
+  - intros z0 Hf. rewrite (insert_rediscovery k s a (hd_error vs) z0 Hf). cbn [fst set_bk bk].
+    apply get_put_same.
+  - intros Hf Hl. rewrite (insert_room k s a 0 (hd_error vs) Hf Hl). cbn [fst set_bk bk].
+    apply get_put_same.
+  - intros p Hp. destruct (insert k s a 0 (hd_error vs)) as [s1 r1]. cbn [fst set_bk bk].
+    apply get_put_other. exact Hp.
+  - destruct (insert k s a 0 (hd_error vs)) as [s1 r1]. reflexivity.
+  - destruct (insert k s a 0 (hd_error vs)) as [s1 r1]. reflexivity.
+  - destruct (insert k s a 0 (hd_error vs)) as [s1 r1]. reflexivity.
+Qed.
+
+(* histories made of API calls and complete dial episodes only (no dial result reported out of the
+   blue, no raw store insert): nothing has to be assumed about the environment *)
+Definition api_op (o : op) : Prop :=
+  match o with
+  | ODialFailure _ _ _ | OEstablished _ _ false _ | OInsert _ _ _ _ => False
+  | _ => True
+  end.
+
+Lemma api_op_strict c L0 o : api_op o -> op_strict c L0 o.
+Proof. destruct o as [| | ? ? [|] ?| | | | | | | | | |]; cbn; intro H; try contradiction; exact I. Qed.
+
+Lemma run_api c k L0 h p s a z :
+  Forall api_op h ->
+  get p (bk (fst (run c k (mkState [] L0 0 []) h))) = Some s -> In (a, z) s ->
+  remembered_strict c L0 p a.
+Proof.
+  intro H. apply run_strict. rewrite Forall_forall in *. intros o Ho. apply api_op_strict. exact (H o Ho).
 Qed.
